@@ -12,6 +12,7 @@ package main
 
 import (
 	"bufio"
+	"bytes"
 	"encoding/binary"
 	"encoding/json"
 	"fmt"
@@ -519,11 +520,13 @@ func explore(prop, tier string) int {
 				infra = append(infra, fmt.Sprintf("worker %d: %s", w, r.raw[i]))
 			}
 		}
-		if r.exit == 2 && crashIsViolation[prop] && (strings.Contains(r.stderr, "panic:") || strings.Contains(r.stderr, "fatal error:")) {
+		if r.exit == 2 && (crashIsViolation[prop] || crashRaisedInRepo(r.stderr)) && (strings.Contains(r.stderr, "panic:") || strings.Contains(r.stderr, "fatal error:")) {
 			// the worker process died: a panic escaped the system under test
 			if b, err := os.ReadFile(filepath.Join(td, fmt.Sprintf("w%d.current", w))); err == nil {
 				var f map[string]any
-				if json.Unmarshal(b, &f) == nil {
+				dec := json.NewDecoder(bytes.NewReader(b))
+				dec.UseNumber() // 64-bit seeds must survive the round trip
+				if dec.Decode(&f) == nil {
 					first := r.stderr
 					if i := strings.Index(first, "panic:"); i >= 0 {
 						first = first[i:]
@@ -713,6 +716,39 @@ var hangIsViolation = map[string]bool{"C10": true, "C14": true, "C17": true}
 
 // crashIsViolation: properties for which a crashed worker process is itself a violation.
 var crashIsViolation = map[string]bool{"C16": true}
+
+// crashRaisedInRepo reads the trace of a worker process that died of a panic nobody recovered (or a
+// fatal error of the runtime): true if the first frame of the crashing goroutine outside the Go
+// runtime and standard library is code of the repository, not of the harness. Such a crash is a
+// violation for every property (the workloads make legal calls only) - if its replay crashes again.
+func crashRaisedInRepo(stderr string) bool {
+	i := strings.Index(stderr, "panic:")
+	if j := strings.Index(stderr, "fatal error:"); i < 0 || (j >= 0 && j < i) {
+		i = j
+	}
+	if i < 0 {
+		return false
+	}
+	tr := stderr[i:]
+	if k := strings.Index(tr, "\ngoroutine "); k >= 0 {
+		tr = tr[k+1:]
+		// the first goroutine listed is the crashing one
+		if k2 := strings.Index(tr, "\n\n"); k2 >= 0 {
+			tr = tr[:k2]
+		}
+	}
+	for _, ln := range strings.Split(tr, "\n") {
+		ln = strings.TrimSpace(ln)
+		if !strings.HasPrefix(ln, "/") {
+			continue
+		}
+		if strings.Contains(ln, "/src/runtime/") || strings.Contains(ln, "/src/sync/") || strings.Contains(ln, "/src/internal/") || strings.Contains(ln, "/src/testing/") {
+			continue
+		}
+		return strings.HasPrefix(ln, repo+"/") || strings.HasPrefix(ln, "/repo/") || strings.Contains(ln, "/instr_out/src/")
+	}
+	return false
+}
 
 func writeEvidence(prop, tier string, seed uint64, meta propMeta, agg summary, distinct int, wall float64, violations int,
 	known map[string]int, budget float64, workers int) {
